@@ -232,8 +232,9 @@ pub fn run_c11(out: &mut Out, tier: &str, rng: &mut Rng) {
                 }
                 let dests: Vec<u8> = if (pgn >> 8) & 0xFF >= 240 { vec![0] } else { vec![da, 0xFF, da.wrapping_add(1), sa] };
                 for dest in dests {
-                    let d = if src == da || thorough { &pats[..] } else { &pats[..1] };
-                    for p in d {
+                    // every accepting data pattern from every selected source: a parser that accepts a message class
+                    // without a source check shows only with that class's payload
+                    for p in &pats[..] {
                         recv_case(out, kind, da, sa, &frame8(make_id(6, pgn, dest, src), *p), src == da);
                     }
                 }
@@ -341,7 +342,7 @@ pub fn volvo_history(out: &mut Out, ops: &[u8], rng: &mut Rng) {
                 out.count("op status");
             }
             1 => {
-                let e = Engine { driver_demand: 0, actual_engine: 0, rpm: *rng.pick(&[0u16, 500, 1500, 3000, 799, 800, 2100, 2101, 65535]), state: *rng.pick(&states) };
+                let e = Engine { driver_demand: 0, actual_engine: 0, rpm: *rng.pick(&[0u16, 500, 1500, 3000, 799, 800, 2100, 2101, 65535, 805, 1009, 1234, 1555, 1999, 2095]), state: *rng.pick(&states) };
                 let mut txq = vec![];
                 let _ = drv.trigger(&mut ctx, &mut txq, &Object::Engine(e));
                 age_ms = 0;
@@ -405,6 +406,26 @@ pub fn run_c08(out: &mut Out, tier: &str, rng: &mut Rng) {
         let mut t2 = vec![];
         let _ = drv.tick(&mut ctx, &mut t2);
         out.case(&format!("volvo {} {} S:{} {} T", da, sa, fmt::frame(&f), engine_cmd_tok(&e)), &format!("- {} {}", fmt::frames(&t1), fmt::frames(&t2)), true);
+    }
+    // the speed encoding itself: every requested speed around and inside [idle, max] on a running engine, as sent
+    // at acceptance and re-sent by the next cycle (the frame carries rpm / 10, truncated)
+    {
+        let (da, sa) = (0x00u8, 0x27u8);
+        for rpm in (780u16..=2120).chain([0u16, 1, 9, 10, 799, 2559, 2560, 65535]) {
+            let drv = make("d7e", da, sa);
+            let mut ctx = NetDriverContext::default();
+            let raw = (1500u16 * 8).to_le_bytes();
+            let f = frame8(make_id(3, 61444, 0, da), [0xF0, 0x7D, 0x80, raw[0], raw[1], 0xFF, 0xFF, 0xFF]);
+            let mut rxq = vec![];
+            let _ = drv.try_recv(&mut ctx, &f, &mut rxq);
+            let e = Engine { driver_demand: 0, actual_engine: 0, rpm, state: EngineState::Request };
+            let mut t1 = vec![];
+            let _ = drv.trigger(&mut ctx, &mut t1, &Object::Engine(e));
+            let mut t2 = vec![];
+            let _ = drv.tick(&mut ctx, &mut t2);
+            out.case(&format!("volvo {} {} S:{} {} T", da, sa, fmt::frame(&f), engine_cmd_tok(&e)), &format!("- {} {}", fmt::frames(&t1), fmt::frames(&t2)), true);
+            out.count("speed sweep on a running engine");
+        }
     }
     let depth = if thorough { 7 } else { 5 };
     for len in 1..=depth {
